@@ -160,7 +160,7 @@ func main() {
 	dir := flag.String("dir", "", "output directory")
 	replay := flag.String("replay", "", "file of case lines to execute instead of generating")
 	corpus := flag.String("corpus", "", "corpus file of case lines executed first")
-	budget := flag.Duration("budget", 0, "wall-clock budget for generation (default 150s quick, 25m thorough)")
+	budget := flag.Duration("budget", 0, "wall-clock budget for generation (default 400s quick, 25m thorough)")
 	flag.Parse()
 	go watchdog(90 * time.Second)
 	if os.Getenv("VERIF_LOG") == "" {
@@ -191,7 +191,7 @@ func main() {
 	c := &Ctx{prop: *prop, tier: *tier, seed: *seed, dir: *dir, cases: cw, impl: iw, orac: ow, jrnl: jf,
 		dist: map[string]int{}, nontriv: map[string]bool{}}
 	if *budget == 0 {
-		*budget = 150 * time.Second
+		*budget = 400 * time.Second
 		if *tier == "thorough" {
 			*budget = 25 * time.Minute
 		}
